@@ -11,6 +11,7 @@ from .numpy_vjps import (
     dot_adjoint_1,
     match_complex,
     nograd_functions,
+    is_discrete,
     replace_zero,
     resolve_order,
     tensordot_adjoint_0,
@@ -27,6 +28,8 @@ defjvp(untake, "same")
 def array_from_args_jvp(argnum, g, ans, args, kwargs):
     # ndmin may have prepended axes of length one to the stacked result
     extra = anp.ndim(ans) - anp.ndim(args[argnum]) - 1
+    if is_discrete(ans):  # dtype=int / bool requested: piecewise constant
+        return vspace(ans).zeros()
     return untake(g, (0,) * extra + (argnum - 2,), vspace(ans))
 
 
@@ -35,7 +38,9 @@ defjvp(
     anp._array_from_scalar_or_array,
     None,
     None,
-    lambda g, ans, args, kwargs, _: anp._array_from_scalar_or_array(args, kwargs, g),
+    lambda g, ans, args, kwargs, _: (
+        vspace(ans).zeros() if is_discrete(ans) else anp._array_from_scalar_or_array(args, kwargs, g)
+    ),
 )
 
 # ----- Functions that are constant w.r.t. continuous inputs -----
@@ -103,7 +108,11 @@ defjvp(anp.flipud, "same")
 defjvp(anp.fliplr, "same")
 defjvp(anp.rot90, "same")
 defjvp(anp.trace, "same")
-defjvp(anp.full, "same", argnums=(1,))
+defjvp(
+    anp.full,
+    lambda g, ans, shape, fill_value, dtype=None: vspace(ans).zeros() if is_discrete(ans) else anp.full(shape, g, dtype),
+    argnums=(1,),
+)
 defjvp(anp.triu, "same")
 defjvp(anp.tril, "same")
 defjvp(anp.swapaxes, "same")
